@@ -72,3 +72,20 @@ func runC02(run *ev.Run, tier string) string {
 	run.Assume("the unindexed twin is the oracle: a defect that affects full scans and index scans alike is C01's to report")
 	return "every criteria tree of the alphabet (all leaves, negations, all And/Or pairs; depth 2 over 8 leaves) x 8 sort/window shapes, FindAll+Count on every twin collection (same documents; index sets none,x,y,x+y,xy,x+xy,n,n.a,n+n.a; indexes created before/after inserts/updates/deletes) and Update/UpdateFunc/Delete on restored snapshots; a case is distinct/non-trivial by its result signature (id set, sort-key sequence or count)"
 }
+
+func init() { register("C01", "model_checking", runC01) }
+
+func runC01(run *ev.Run, tier string) string {
+	leaves := LeavesQuick()
+	crits := []*m.Crit{nil}
+	crits = append(crits, Depth1(leaves)...)
+	backends := []string{drv.BBolt}
+	cfg := &eng.QSConfig{
+		Name: "default", Backends: backends, Docs: eng.DefaultDataset(), Twins: Twins(false)[:6],
+		Crits: crits, Shapes: ShapesBasic()[:5], Reads: true,
+		Own: own("find", "state"),
+	}
+	eng.QuerySweep(cfg, run)
+	sweepModelCounts(run)
+	return "criteria sweep vs reference model"
+}
